@@ -337,6 +337,27 @@ def inject(schema, document):
     yield "5.5.1.4", "spread-only-by-unused", replace(D, defs=D.defs + (Fragment(un, qroot, (), (Spread(un + "b"),)),
                                                                        Fragment(un + "b", qroot, (), (Field("__typename"),))))
 
+    # 5.5.2.2 cycles among fragments that no operation reaches (the cycle passes through a nested selection set, so the fragment is
+    # "spread" somewhere in the document although never from an operation)
+    yield "5.5.2.2", "detached-self|inline", replace(D, defs=D.defs + (Fragment(un, qroot, (), (Field("__typename"), Inline(None, (), (Spread(un),)))),))
+    yield "5.5.2.2", "detached-self|typed-inline", replace(D, defs=D.defs + (Fragment(un, qroot, (), (Inline(qroot, (), (Spread(un),)),)),))
+    for td in schema.types:
+        if td.kind not in ("OBJECT", "INTERFACE") or td.name.startswith("__"):
+            continue
+        done = False
+        for fld in td.fields:
+            inner = named_of(fld.type)
+            if schema.is_composite(inner) and set(schema.possible_types(inner)) & set(schema.possible_types(td.name)) and not fld.args:
+                yield "5.5.2.2", "detached-self|under-nested-field", replace(
+                    D, defs=D.defs + (Fragment(un, td.name, (), (Field(fld.name, None, (), (), (Field("__typename"), Spread(un))),)),))
+                yield "5.5.2.2", "detached-mutual|under-nested-field", replace(
+                    D, defs=(Fragment(un, td.name, (), (Field(fld.name, None, (), (), (Spread(un + "b"),)),)),) + D.defs
+                    + (Fragment(un + "b", td.name, (), (Field(fld.name, None, (), (), (Spread(un),)),)),))
+                done = True
+                break
+        if done:
+            break
+
     # operations: directives, variables
     for di, o in enumerate(D.defs):
         if not isinstance(o, Operation):
